@@ -241,6 +241,9 @@ SQL_MINI = (
 
 # ------------------------------------------------------------------ wider operand pool (C08)
 SQL_POOL_EXTRA = (
+    # explicitly requested common columns that include a NON-key column both operands have (after a join to K)
+    ("join", ("Kb",), None, False, ("d",)),
+    ("join", ("Kb",), None, True, ("a", "d")),
     ("chain", ("X", ("dedup",))),
     ("chain", ("Y", S((R("c"), DESC)), ("slice", 0, 2))),
     ("chain", ("Y", ("chain", ("Y",)), ("dedup",))),
